@@ -204,8 +204,16 @@ def topo(rng, decoy_p=0.3):
         # the site schema enters the first resource of its chain; every intermediate enters the next one
         mids = [rng.random() < 0.4 for _ in chain_]
         mids[-1] = g_mid
+        reenter = len(mine) >= 2 and kinds[mine[0]] != "none" and rng.random() < 0.35
+        if reenter:
+            # the path comes BACK into its first resource (by pointer) and the $dynamicRef lives there: the resource of the initial
+            # target is then also the outermost declaring one, with another declaring resource between it and the reference
+            bodies[mine[0]].get("$defs").set("back", Obj([("$dynamicRef", rng.choice(["#N", res_name(mine[0]) + "#N"]))]))
         for a, b_, ma, mb in zip(chain_, chain_[1:], mids, mids[1:]):
-            hop = Obj([("$ref", enter(b_, mb))]) if rng.random() < 0.8 or mb else Obj([("$dynamicRef", enter(b_, mb))])
+            if reenter and b_ == k:
+                hop = Obj([("$ref", res_name(mine[0]) + "#/$defs/back")])
+            else:
+                hop = Obj([("$ref", enter(b_, mb))]) if rng.random() < 0.8 or mb else Obj([("$dynamicRef", enter(b_, mb))])
             lv = rng.randint(0, 2)
             if lv == 0:
                 place(a, ma, hop.kvs)
